@@ -70,6 +70,7 @@ func (fx *FuncCtx) callWith(st *State, cc *ssa.CallCommon, fnv Val, args []Val, 
 		return fx.freshVal("log", rt)
 	}
 	if b, ok := cc.Value.(*ssa.Builtin); ok {
+		fx.curInstr = instr
 		return fx.builtin(st, b, args, rt, pos)
 	}
 	if cc.IsInvoke() {
@@ -333,15 +334,18 @@ func (fx *FuncCtx) havocMonitor(st *State, nt *types.Named, md *MonitorDecl, ref
 			st.exempt = append(append([]string(nil), st.exempt...), dom.Key+"|"+m, lk.Key+"|"+m)
 		}
 		cls, _ := fx.eng.fieldClass(nt, g)
-		if cls == "owned" {
-			if sl, ok := ft.Underlying().(*types.Slice); ok {
-				for _, ec := range fx.mode.comps(sl.Elem()) {
-					k := fx.elemKey(sl.Elem(), ec)
-					f := fx.decls.fresh("hv$"+g+"$arr", "(Array "+fx.mode.lenSort()+" "+ec.sort+")")
-					fx.assumeArrayTyping(st, f, sl.Elem(), ec)
-					fx.heapSet(st, k, sx("store", fx.heapGet(st.heap, k), nv.C[0], f))
-					st.exempt = append(append([]string(nil), st.exempt...), k.Key+"|"+nv.C[0])
-				}
+		// the elements of a slice held in a guarded field are guarded state too: other critical sections may have
+		// written them (and may have grown the slice in place)
+		if sl, ok := ft.Underlying().(*types.Slice); ok {
+			for _, ec := range fx.mode.comps(sl.Elem()) {
+				k := fx.elemKey(sl.Elem(), ec)
+				f := fx.decls.fresh("hv$"+g+"$arr", "(Array "+fx.mode.lenSort()+" "+ec.sort+")")
+				fx.assumeArrayTyping(st, f, sl.Elem(), ec)
+				fx.heapSet(st, k, sx("store", fx.heapGet(st.heap, k), nv.C[0], f))
+				st.exempt = append(append([]string(nil), st.exempt...), k.Key+"|"+nv.C[0])
+			}
+			st.assume(or(eq(nv.C[0], "0"), sx("select", fx.guardedArrays(), nv.C[0])))
+			if cls == "owned" {
 				fx.assumeOwnedDistinct(st, nv.C[0])
 			}
 		}
@@ -393,6 +397,13 @@ func (fx *FuncCtx) havocMonitor(st *State, nt *types.Named, md *MonitorDecl, ref
 }
 
 // an owned array is not aliased by any slice parameter of the function (trusted: owned arrays never escape)
+// guardedArrays: rigid ghost predicate over array references - "this array is (or was) held in a guarded slice field of
+// a monitor".  It is only ever assumed positively (for the array a guarded field holds when the monitor is entered), so it
+// cannot contradict anything; arrays in it are exempt from framing and are what a loop of monitor calls may change.
+func (fx *FuncCtx) guardedArrays() string {
+	return fx.decls.declare("GA$guarded", "(Array Int Bool)")
+}
+
 func (fx *FuncCtx) assumeOwnedDistinct(st *State, base string) {
 	for _, p := range fx.fn.Params {
 		if _, ok := p.Type().Underlying().(*types.Slice); ok {
@@ -466,7 +477,15 @@ func (fx *FuncCtx) checkFieldWrite(st *State, l *Loc, v Val, pos token.Pos) {
 		if cls == "owned" && len(v.C) == 4 {
 			// the stored slice must be freshly allocated here (or nil)
 			if !st.freshRefs[v.C[0]] && v.C[0] != "0" {
-				fx.oblige(st, "owned", first, "false", pos, "value stored into owned field "+first+" is not a fresh allocation of this function")
+				// ... or the array the field holds already (re-slicing, growth in place)
+				goal := "false"
+				if first == l.Path {
+					if cs := fx.mode.comps(v.T); len(cs) == 4 {
+						curBase := sx("select", fx.heapGet(st.heap, fx.fieldKey(l.Root, l.Path, cs[0])), l.Ref)
+						goal = or(eq(v.C[0], "0"), eq(v.C[0], curBase))
+					}
+				}
+				fx.oblige(st, "owned", first, goal, pos, "value stored into owned field "+first+" is neither a fresh allocation of this function nor the array the field already holds")
 			}
 		}
 		if cls == "immutable" && !fx.fc.Ctor && !st.freshRefs[l.Ref] {
@@ -637,6 +656,56 @@ func (fx *FuncCtx) builtinAppend(st *State, args []Val, rt types.Type, pos token
 	// through another alias afterwards; in-place writes beyond len(s) are invisible to slices of length <= len(s))
 	// We model both: contents of result[0:len(s)) = s, result[len(s):len(s)+len(t)) = t.
 	newLen := fx.lenOp("+", s.C[2], t.C[2])
+	// Go semantics: when the spare capacity suffices the result shares the backing array of s and the new elements are
+	// written in place (visible through every alias of that array); otherwise a new array is allocated.  Both cases are
+	// explored as separate paths when the call is an ordinary instruction.
+	inPlace := false
+	if call, isCall := fx.curInstr.(*ssa.Call); isCall && call.Common().Value != nil {
+		if bi, isB := call.Common().Value.(*ssa.Builtin); isB && bi.Name() == "append" {
+			inPlace = true
+			alt := st.clone()
+			alt.trail = append(alt.trail, "append:inplace")
+			alt.assume(fx.lenCmp("<=", newLen, s.C[3]))
+			start := fx.lenOp("+", s.C[1], s.C[2])
+			fx.decls.n++
+			qj := fmt.Sprintf("q$ap!%d", fx.decls.n)
+			for ci, ec := range fx.mode.comps(et) {
+				k := fx.elemKey(et, ec)
+				cur := fx.heapGet(alt.heap, k)
+				arr := sx("select", cur, s.C[0])
+				if t.Tup != nil {
+					for j, ev := range t.Tup {
+						evv := fx.adapt(ev, et)
+						if ci < len(evv.C) {
+							arr = sx("store", arr, fx.lenOp("+", start, fx.lenNum(int64(j))), evv.C[ci])
+						}
+					}
+				} else {
+					na := fx.decls.fresh("app$inp", "(Array "+fx.mode.lenSort()+" "+ec.sort+")")
+					inT := and(fx.lenCmp("<=", start, qj), fx.lenCmp("<", qj, fx.lenOp("+", s.C[1], newLen)))
+					body := eq(sx("select", na, qj), ite(inT, sx("select", sx("select", cur, t.C[0]), fx.lenOp("+", t.C[1], fx.lenOp("-", qj, start))), sx("select", arr, qj)))
+					alt.assume("(forall ((" + qj + " " + fx.mode.lenSort() + ")) (! " + body + " :pattern (" + sx("select", na, qj) + ")))")
+					arr = na
+				}
+				fx.heapSet(alt, k, sx("store", cur, s.C[0], arr))
+			}
+			fx.set(alt, call, Val{T: rt, C: []string{s.C[0], s.C[1], newLen, s.C[3]}})
+			b := call.Block()
+			idx := -1
+			for i, x := range b.Instrs {
+				if x == ssa.Instruction(call) {
+					idx = i
+				}
+			}
+			fx.npaths++
+			if fx.npaths > maxPaths {
+				fx.failf("path explosion in %s", fx.key)
+			}
+			fx.runFrom(alt, b, idx+1)
+			st.assume(fx.lenCmp(">", newLen, s.C[3]))
+			st.trail = append(st.trail, "append:realloc")
+		}
+	}
 	r := fx.newRef(st, "app")
 	ncap := fx.decls.fresh("appcap", fx.mode.lenSort())
 	st.assume(fx.lenCmp(">=", ncap, newLen))
@@ -671,7 +740,9 @@ func (fx *FuncCtx) builtinAppend(st *State, args []Val, rt types.Type, pos token
 		}
 		fx.heapSet(st, k, sx("store", cur, r, na))
 	}
-	fx.trusted["append modelled as reallocation: the result never aliases its argument (in-place growth into spare capacity is not modelled)"] = true
+	if !inPlace {
+		fx.trusted["append in defer/go modelled as reallocation: the result never aliases its argument (in-place growth into spare capacity is not modelled there)"] = true
+	}
 	return Val{T: rt, C: []string{r, fx.lenNum(0), newLen, ncap}}
 }
 
@@ -1112,6 +1183,10 @@ func (fx *FuncCtx) frameObligations(st *State, env *SpecEnv, pos token.Pos) {
 				}
 			}
 		}
+		if strings.HasPrefix(key, "A$") {
+			// arrays known to be held in guarded slice fields of monitors are guarded state
+			hy = append(hy, not(sx("select", fx.guardedArrays(), o)))
+		}
 		if strings.HasPrefix(key, "A$") && a != nil && len(a.elems) > 0 {
 			// `modifies x[*]` allows the whole backing array of x to change
 			for _, t := range a.elems {
@@ -1444,12 +1519,14 @@ func (fx *FuncCtx) monitorKeysStatic(nt *types.Named, keySet map[string]HeapKey,
 					keySet[k.Key] = k
 					fx.noteEff(k.Key, src)
 				}
-				if cls, _ := fx.eng.fieldClass(nt, g); cls == "owned" {
-					if sl, ok := ft.Underlying().(*types.Slice); ok {
-						for _, c := range fx.mode.comps(sl.Elem()) {
-							k := fx.elemKey(sl.Elem(), c)
-							keySet[k.Key] = k
+				if sl, ok := ft.Underlying().(*types.Slice); ok {
+					for _, c := range fx.mode.comps(sl.Elem()) {
+						k := fx.elemKey(sl.Elem(), c)
+						keySet[k.Key] = k
+						if cls, _ := fx.eng.fieldClass(nt, g); cls == "owned" {
 							fx.noteEff(k.Key, nil)
+						} else {
+							fx.effMon[k.Key] = true // only arrays that are guarded state of a monitor change
 						}
 					}
 				}
